@@ -142,7 +142,7 @@ class Check:
                         log("[trace] scheduler stall of case %s did not repeat when run alone: not reported" % cid)
                 if not stall_checked[cid]:
                     continue
-            if conj.startswith("NoReturn") or conj.startswith("Rejected"):
+            if conj.startswith(("NoReturn", "Rejected", "NoSpecAction")):
                 info = _noreturn_info(tp, cid)
                 if info is not None:
                     conj = "NoReturn(%s,%s,after %s steps)" % (info.get("why"), info.get("detail"), info.get("steps_done"))
